@@ -19,6 +19,8 @@ pub struct CallCase {
     pub enc: Option<crate::oracle::comp::Enc>,
     /// bodies are delivered in fixed 4 KiB chunks (large messages)
     pub fixed_chunks: bool,
+    /// the same call is made a second time on the same client / channel and server (C02 only)
+    pub repeat: bool,
 }
 
 pub fn status_menu(tier: Tier) -> Vec<StatusSpec> {
@@ -89,9 +91,12 @@ pub fn call_cases(tier: Tier) -> Vec<CallCase> {
                         if n % 3 == 0 || (msgs.is_empty() && script.end.is_none()) {
                             let mut s2 = script.clone();
                             s2.exact_hint = true;
-                            out.push(CallCase { shape, req_msgs: req_msgs.clone(), req_md: req_md.clone(), script: s2, free_cuts: false, enc: None, fixed_chunks: false });
+                            out.push(CallCase { shape, req_msgs: req_msgs.clone(), req_md: req_md.clone(), script: s2, free_cuts: false, enc: None, fixed_chunks: false, repeat: false });
                         }
-                        out.push(CallCase { shape, req_msgs: req_msgs.clone(), req_md, script, free_cuts: false, enc: None, fixed_chunks: false });
+                        if n % 4 == 1 {
+                            out.push(CallCase { shape, req_msgs: req_msgs.clone(), req_md: req_md.clone(), script: script.clone(), free_cuts: false, enc: None, fixed_chunks: false, repeat: true });
+                        }
+                        out.push(CallCase { shape, req_msgs: req_msgs.clone(), req_md, script, free_cuts: false, enc: None, fixed_chunks: false, repeat: false });
                     }
                 }
             }
@@ -107,12 +112,15 @@ pub fn call_cases(tier: Tier) -> Vec<CallCase> {
                 for (req, resp) in [(zeros.clone(), noisy.clone()), (noisy.clone(), zeros.clone()), (vec![1u8, 2, 3], zeros.clone()), (vec![], vec![])] {
                     let req_msgs = if shape.streams_requests() { vec![req.clone(), vec![5]] } else { vec![req.clone()] };
                     let script = Script { initial_md: vec![], msgs: vec![resp.clone(), vec![6]], end: None, handler_err: false, bidi: BidiMode::ReadAll, disable_compression: false, exact_hint: false };
-                    out.push(CallCase { shape, req_msgs: req_msgs.clone(), req_md: vec![], script: script.clone(), free_cuts: false, enc: Some(enc), fixed_chunks: true });
+                    out.push(CallCase { shape, req_msgs: req_msgs.clone(), req_md: vec![], script: script.clone(), free_cuts: false, enc: Some(enc), fixed_chunks: true, repeat: false });
+                    if req.len() <= 3 {
+                        out.push(CallCase { shape, req_msgs: req_msgs.clone(), req_md: vec![], script: script.clone(), free_cuts: false, enc: Some(enc), fixed_chunks: true, repeat: true });
+                    }
                     // the per-response opt-out (Response::disable_compression) on unary responses
                     if !shape.streams_responses() {
                         let mut s2 = script.clone();
                         s2.disable_compression = true;
-                        out.push(CallCase { shape, req_msgs: req_msgs.clone(), req_md: vec![], script: s2, free_cuts: false, enc: Some(enc), fixed_chunks: true });
+                        out.push(CallCase { shape, req_msgs: req_msgs.clone(), req_md: vec![], script: s2, free_cuts: false, enc: Some(enc), fixed_chunks: true, repeat: false });
                     }
                 }
             }
@@ -123,7 +131,7 @@ pub fn call_cases(tier: Tier) -> Vec<CallCase> {
         let req_msgs = if shape.streams_requests() { vec![vec![1], vec![]] } else { vec![vec![1]] };
         for end in [None, Some(statuses[4].clone())] {
             let script = Script { initial_md: mds[1].clone(), msgs: vec![vec![2]], end, handler_err: false, bidi: BidiMode::ReadAll, disable_compression: false, exact_hint: false };
-            out.push(CallCase { shape, req_msgs: req_msgs.clone(), req_md: mds[2].clone(), script, free_cuts: true, enc: None, fixed_chunks: false });
+            out.push(CallCase { shape, req_msgs: req_msgs.clone(), req_md: mds[2].clone(), script, free_cuts: true, enc: None, fixed_chunks: false, repeat: false });
         }
     }
     out
@@ -224,12 +232,29 @@ fn l1_body(c: &CallCase, ch: &Chooser) -> Outcome {
             return o;
         }
     };
+    let log_arc = log.clone();
     let log = log.lock().unwrap().clone();
     let mut o = Outcome::new(format!("{} | handler msgs={:?} err={:?}", fmt_view(&view), log.req_msgs, log.req_err));
     o.nontrivial = ch.deviations() > 0 || c.script.end.is_some();
     judge(&mut o, c, &view, &log);
     if ch.has_flag(crate::env::SOURCE_POLLED_AFTER_END) {
         o.violate("source-polled-after-end", "a request or response message stream was polled again after it had returned None (a legitimate non-fused stream may panic there and the call would be lost)");
+    }
+    if c.repeat {
+        // the same call once more on the same client and server: nothing may carry over
+        *log_arc.lock().unwrap() = HandlerLog::default();
+        match spin_block_on(client_call(&mut client, c.shape, c.req_msgs.clone(), &c.req_md, true, ch, |_| {}), 200_000) {
+            Err(_) => o.violate("second-call:stall", "the second call on the same client did not complete"),
+            Ok(view2) => {
+                let log2 = log_arc.lock().unwrap().clone();
+                o.obs.push_str(&format!(" || second call: {} | handler msgs={:?} err={:?}", fmt_view(&view2), log2.req_msgs, log2.req_err));
+                let before = o.violations.len();
+                judge(&mut o, c, &view2, &log2);
+                for v in o.violations.iter_mut().skip(before) {
+                    v.0 = format!("second-call:{}", v.0);
+                }
+            }
+        }
     }
     if c.script.disable_compression && c.enc.is_some() {
         // the handler opted out of compression for this response: its frames carry flag 0
@@ -245,6 +270,12 @@ fn l1_body(c: &CallCase, ch: &Chooser) -> Outcome {
 /// L2: the same script through the real transport: Endpoint::connect_with_connector -> Channel
 /// -> hyper/h2 -> in-memory pipe (fragmentation pattern `chop`) -> Server::serve_with_incoming.
 pub fn l2_run(c: &CallCase, chop: usize, ch: &Chooser) -> Result<(ClientView, HandlerLog), String> {
+    l2_run_all(c, chop, ch).map(|mut v| v.remove(0))
+}
+
+/// As `l2_run`; with `c.repeat` the call is made twice on the same channel (same HTTP/2
+/// connection) and both (view, handler log) pairs are returned.
+pub fn l2_run_all(c: &CallCase, chop: usize, ch: &Chooser) -> Result<Vec<(ClientView, HandlerLog)>, String> {
     use crate::env::vnet::{self, ConnectMode};
     let rt = vnet::runtime(11);
     let (mut server, log) = new_server(c.script.clone(), ch, true);
@@ -254,6 +285,7 @@ pub fn l2_run(c: &CallCase, chop: usize, ch: &Chooser) -> Result<(ClientView, Ha
     }
     let c2 = c.clone();
     let ch2 = ch.clone();
+    let log2 = log.clone();
     let view = rt.block_on(async move {
         let (st, rx) = vnet::connector_state(ConnectMode::Succeed, false, chop);
         let srv = tokio::spawn(async move {
@@ -269,13 +301,23 @@ pub fn l2_run(c: &CallCase, chop: usize, ch: &Chooser) -> Result<(ClientView, Ha
             let e = super::codec_common::tonic_enc(e);
             client = client.send_compressed(e).accept_compressed(e);
         }
-        let v = vnet::within(std::time::Duration::from_secs(3600), client_call(&mut client, c2.shape, c2.req_msgs.clone(), &c2.req_md, true, &ch2, |_| {})).await;
+        let mut out = vec![];
+        for round in 0..(1 + c2.repeat as usize) {
+            *log2.lock().unwrap() = HandlerLog::default();
+            let v = vnet::within(std::time::Duration::from_secs(3600), client_call(&mut client, c2.shape, c2.req_msgs.clone(), &c2.req_md, true, &ch2, |_| {})).await;
+            match v {
+                None => {
+                    srv.abort();
+                    return Err(if round == 0 { "call hung".to_string() } else { "second call on the same channel hung".to_string() });
+                }
+                Some(v) => out.push((v, log2.lock().unwrap().clone())),
+            }
+        }
         srv.abort();
-        v.ok_or_else(|| "call hung".to_string())
+        Ok(out)
     })?;
     drop(rt);
-    let l = log.lock().unwrap().clone();
-    Ok((view, l))
+    Ok(view)
 }
 
 #[derive(Clone, Debug)]
@@ -285,13 +327,14 @@ pub struct L2Case {
 }
 
 fn l2_body(c: &L2Case, ch: &Chooser) -> Outcome {
-    match l2_run(&c.call, c.chop, ch) {
+    match l2_run_all(&c.call, c.chop, ch) {
         Err(e) => {
             let mut o = Outcome::new(format!("FAILED {e}"));
             o.violate(if e.contains("hung") { "hang" } else { "transport-setup" }, e);
             o
         }
-        Ok((view, log)) => {
+        Ok(mut rounds) => {
+            let (view, log) = rounds.remove(0);
             let mut clean = view.clone();
             // transport-added response headers (date) are not part of the observation
             if let Some(h) = clean.initial_md.as_mut() {
@@ -303,6 +346,15 @@ fn l2_body(c: &L2Case, ch: &Chooser) -> Outcome {
             let mut o = Outcome::new(format!("{} | handler msgs={:?} err={:?}", fmt_view(&clean), log.req_msgs, log.req_err));
             o.nontrivial = c.chop != 0 || c.call.script.end.is_some();
             judge(&mut o, &c.call, &view, &log);
+            // the same call again on the same channel (same HTTP/2 connection) and server
+            for (view2, log2) in rounds {
+                o.obs.push_str(&format!(" || second call: {} | handler msgs={:?} err={:?}", fmt_view(&view2).replace("date=", "d="), log2.req_msgs, log2.req_err));
+                let before = o.violations.len();
+                judge(&mut o, &c.call, &view2, &log2);
+                for v in o.violations.iter_mut().skip(before) {
+                    v.0 = format!("second-call:{}", v.0);
+                }
+            }
             if ch.has_flag(crate::env::SOURCE_POLLED_AFTER_END) {
                 o.violate("source-polled-after-end", "a request or response message stream was polled again after it had returned None");
             }
@@ -313,11 +365,11 @@ fn l2_body(c: &L2Case, ch: &Chooser) -> Outcome {
 
 pub fn describe(c: &CallCase) -> String {
     if c.fixed_chunks {
-        return format!("{:?} enc={:?} opt_out={} req_lens={:?} resp_lens={:?} (large messages, fixed chunks)", c.shape, c.enc.map(|e| e.name()), c.script.disable_compression, c.req_msgs.iter().map(|m| m.len()).collect::<Vec<_>>(), c.script.msgs.iter().map(|m| m.len()).collect::<Vec<_>>());
+        return format!("{:?} enc={:?} opt_out={} req_lens={:?} resp_lens={:?} repeat={} (large messages, fixed chunks)", c.shape, c.enc.map(|e| e.name()), c.script.disable_compression, c.req_msgs.iter().map(|m| m.len()).collect::<Vec<_>>(), c.script.msgs.iter().map(|m| m.len()).collect::<Vec<_>>(), c.repeat);
     }
     format!(
-        "{:?} req={:?} req_md={:?} script{{md={:?} msgs={:?} end={:?} handler_err={} mode={:?} exact_size_hint={}}} free={}",
-        c.shape, c.req_msgs, c.req_md, c.script.initial_md, c.script.msgs, c.script.end, c.script.handler_err, c.script.bidi, c.script.exact_hint, c.free_cuts
+        "{:?} req={:?} req_md={:?} script{{md={:?} msgs={:?} end={:?} handler_err={} mode={:?} exact_size_hint={}}} free={} repeat={}",
+        c.shape, c.req_msgs, c.req_md, c.script.initial_md, c.script.msgs, c.script.end, c.script.handler_err, c.script.bidi, c.script.exact_hint, c.free_cuts, c.repeat
     )
 }
 
@@ -325,7 +377,7 @@ pub fn property(tier: Tier) -> Property {
     let l1 = Section::new(
         "l1-direct",
         Config { max_bound: tier.q(1, 2), ..Default::default() },
-        "cases: call shape x request message sequence x caller metadata x handler script (initial metadata, 0..2 messages or echo/read-all/ignore-input modes, OK or Status(code in 1..16, message menu incl. '%'/non-ASCII/control chars, details menu, metadata menu), handler-level error); generated client -> in-process adapter -> generated server, no runtime. Environment: both bodies re-delivered with every chunking with <= bound cuts/Pending deviations (every composition for the small free-cut cases), request and response message sources may answer Pending. Oracle: the script itself (messages in order, outcome, code/message/details equal, metadata contained per key in order; handler saw the caller's messages and metadata). Non-trivial = at least one deviation taken or an error status scripted.",
+        "cases: call shape x request message sequence x caller metadata x handler script (initial metadata, 0..2 messages or echo/read-all/ignore-input modes, OK or Status(code in 1..16, message menu incl. '%'/non-ASCII/control chars, details menu, metadata menu), handler-level error), a quarter of them made twice in a row on the same client and server (the second call is judged like the first); generated client -> in-process adapter -> generated server, no runtime. Environment: both bodies re-delivered with every chunking with <= bound cuts/Pending deviations (every composition for the small free-cut cases), request and response message sources may answer Pending. Oracle: the script itself (messages in order, outcome, code/message/details equal, metadata contained per key in order; handler saw the caller's messages and metadata). Non-trivial = at least one deviation taken or an error status scripted.",
         call_cases(tier),
         describe,
         l1_body,
